@@ -174,6 +174,13 @@ def ecdsa_blob_tree(curve=256):
     return S([L(b'ecdsa-sha2-' + name, 'type'), L(name, 'curve'), L(q, 'Q')], 'ecdsa_key')
 
 
+def sk_ecdsa_blob_tree(curve=256, app=b'ssh:'):
+    # PROTOCOL.u2f: string "sk-ecdsa-sha2-nistp256@openssh.com", string curve name, ec_point Q, string application
+    name = b'nistp%d' % curve
+    flen = ECDSA_FIELD_BYTES[curve]
+    return S([L(b'sk-ecdsa-sha2-' + name + b'@openssh.com', 'type'), L(name, 'curve'), L(b'\x04' + b'\x31' * flen + b'\x32' * flen, 'Q'), L(app, 'application')], 'sk_ecdsa_key')
+
+
 def dss_blob_tree(pbits=1024):
     p = modulus_with_bits(pbits)
     q = modulus_with_bits(160)
